@@ -43,10 +43,10 @@ def check(run):
     run.ob("C04.R2", "%s:DoDoer.do:loop-test-fed-by-recur" % M, ok, site,
            "" if ok else "DoDoer.do's loop test is not fed by self.done = self.recur(...): completion is delayed or lost")
     # recur passes the tyme it was sent
-    ok = any(isinstance(n, ast.Call) and is_self_call(n, "recur") and any(k.arg == "tyme" and dotted(k.value) in ("tyme", "self.tyme") for k in n.keywords)
-             for n in walk_local(do.node)) and any(
-        isinstance(n, ast.Assign) and isinstance(n.targets[0], ast.Name) and n.targets[0].id == "tyme" and isinstance(n.value, ast.Yield)
-        for n in walk_local(do.node))
+    sent = {n.targets[0].id for n in walk_local(do.node) if isinstance(n, ast.Assign) and isinstance(n.targets[0], ast.Name) and isinstance(n.value, ast.Yield)}
+    ok = bool(sent) and any(isinstance(n, ast.Call) and is_self_call(n, "recur")
+                            and any(k.arg == "tyme" and dotted(k.value) in sent | {"self.tyme"} for k in n.keywords)
+                            for n in walk_local(do.node))
     run.ob("C04.R2", "%s:DoDoer.do:passes-sent-tyme" % M, ok, site,
            "" if ok else "DoDoer.do does not pass the tyme it was sent to recur")
     # DoDoer.recur does not tick and returns emptiness
